@@ -220,3 +220,270 @@ def stream(rng):
         f, c = frame(rng)
         parts.append(f); content += c
     return b"".join(parts), content
+
+
+# ---------------------------------------------------------------------------------------------------------------------------
+# compressed blocks whose three sequence tables are FSE-described (random distributions incl. "less than one" probabilities)
+
+def fse_decode_table(norm, log):
+    """decoding table of a normalised distribution: per state (symbol, nbBits, baseline) - format specification 4.1.1"""
+    size = 1 << log
+    syms = [0] * size
+    high = size - 1
+    nxt = {}
+    for s, c in enumerate(norm):
+        if c == -1:
+            syms[high] = s; high -= 1; nxt[s] = 1
+        elif c > 0:
+            nxt[s] = c
+    step = (size >> 1) + (size >> 3) + 3
+    pos = 0
+    for s, c in enumerate(norm):
+        for _ in range(max(c, 0)):
+            syms[pos] = s
+            pos = (pos + step) & (size - 1)
+            while pos > high:
+                pos = (pos + step) & (size - 1)
+    assert pos == 0
+    out = []
+    for st in range(size):
+        s = syms[st]; nx = nxt[s]; nxt[s] += 1
+        nb = log - (nx.bit_length() - 1)
+        out.append((s, nb, (nx << nb) - size))
+    return out
+
+
+def make_norm(rng, used, log, low=(), maxsym_limit=None):
+    """normalised counts covering `used` (plus a few unused symbols), symbols in `low` get probability -1; sum of |count| = 2^log"""
+    size = 1 << log
+    top = max(used)
+    if maxsym_limit is not None and rng.random() < 0.3:
+        top = rng.randint(top, maxsym_limit)
+    present = set(used) | {top} | {s for s in range(top) if rng.random() < 0.15}
+    while len(present) > size - 1:
+        present.discard(next(s for s in sorted(present) if s not in used and s != top))
+    norm = [0] * (top + 1)
+    lows = set(low) | {s for s in present if rng.random() < 0.1}
+    pos = [s for s in present if s not in lows]
+    if not pos:
+        s = next(iter(sorted(present - set(low)))) if present - set(low) else None
+        if s is None:
+            return None
+        lows.discard(s); pos = [s]
+    for s in present:
+        norm[s] = -1 if s in lows else 1
+    budget = size - len(present)
+    if budget < 0:
+        return None
+    while budget > 0:
+        s = rng.choice(pos)
+        k = min(budget, rng.choice([1, 1, 2, 5, 17, budget]))
+        norm[s] += k; budget -= k
+    if len(pos) == 1 and len(present) == 1:
+        return None          # a single symbol filling the table is the RLE mode's job
+    return norm
+
+
+def fse_encode_states(table, codes):
+    """states of one stream for the code sequence (decoder's view), chosen backwards: state k is the state of codes[k] whose
+    range holds state k+1"""
+    by_sym = {}
+    for st, (s, nb, base) in enumerate(table):
+        by_sym.setdefault(s, []).append(st)
+    states = [0] * len(codes)
+    states[-1] = by_sym[codes[-1]][0]
+    for k in range(len(codes) - 2, -1, -1):
+        nxt = states[k + 1]
+        for st in by_sym[codes[k]]:
+            s, nb, base = table[st]
+            if base <= nxt < base + (1 << nb):
+                states[k] = st
+                break
+        else:
+            raise AssertionError("no predecessor state")
+    return states
+
+
+def fse_block(rng, h, blockmax, extreme=False):
+    """one compressed block with FSE-described LL / OF / ML tables; extreme = one sequence that needs the most bits a sequence can
+    need (long literal run + far offset + long match, each with a code of probability 'less than one' in full-size tables)"""
+    import dictgen
+    avail = len(h.out)
+    maxof = max(2, min(27, (avail + 3).bit_length() - 1))
+    ring = extreme == "ring"
+    if ring:
+        extreme = False
+    if ring:
+        # more than 64 KiB of literals in few long runs, matches reaching almost a whole window back
+        ll_set, ml_set = [31, 32, 33], sorted(set(rng.sample(range(20, 44), 3)))
+        of_set = [c for c in (15, 16) if c <= maxof] or [maxof]
+        nseq = rng.choice([4, 8, 12])
+        logs = (rng.randint(5, 9), rng.randint(5, 8), rng.randint(5, 9))
+    elif extreme:
+        ll_set, ml_set = [0, 1, 2, 3], [0, 1, 2, 5]
+        of_set = [c for c in (2, 3, 4, 6) if c <= maxof]
+        nseq = rng.choice([300, 1000, 2300])
+        logs = (9, 8, 9)
+    else:
+        ll_set = sorted(set(rng.sample(range(0, 26), rng.randint(1, 6))))
+        ml_set = sorted(set(rng.sample(range(0, 44), rng.randint(1, 6))))
+        of_set = sorted(set(rng.sample(range(0, maxof + 1), min(maxof + 1, rng.randint(1, 5)))))
+        nseq = rng.choice([1, 2, 3, 20, 200, 1000])
+        logs = (rng.randint(5, 9), rng.randint(5, 8), rng.randint(5, 9))
+    big_at = rng.randrange(nseq) if extreme else -1
+    big = None
+    if extreme:
+        bll = rng.choice([33, 34]); bml = rng.choice([43, 45, 46]); bof = max(c for c in range(2, maxof + 1))
+        big = (bll, bml, bof)
+    seqs, rep, pos, total, lits_needed = [], list(h.rep), avail, 0, 0
+    for k in range(nseq):
+        if k == big_at:
+            llc, mlc, ofc = big
+        else:
+            llc, mlc, ofc = rng.choice(ll_set), rng.choice(ml_set), rng.choice(of_set)
+        ll = LL_base[llc] + (rng.getrandbits(LL_bits[llc]) if LL_bits[llc] else 0)
+        ml = ML_base[mlc] + (rng.getrandbits(ML_bits[mlc]) if ML_bits[mlc] else 0)
+        reserve = 40000 if (extreme and k < big_at) else 0
+        if total + ll + ml > blockmax - reserve:
+            if k == big_at:
+                ll = LL_base[llc]; ml = ML_base[mlc]
+                if total + ll + ml > blockmax:
+                    break
+            else:
+                continue
+        p = pos + ll
+        ll0 = 1 if ll == 0 else 0
+        extra = 0
+        if ofc >= 2:
+            lo = (1 << ofc) - 3
+            hi = min((1 << ofc) + (1 << ofc) - 1 - 3, p)
+            if hi < max(lo, 1):
+                continue
+            off = rng.randint(max(lo, 1), hi)
+            extra = off - lo
+            nrep = [off, rep[0], rep[1]]
+        elif ofc == 0:
+            off = rep[ll0]
+            nrep = [rep[1], rep[0], rep[2]] if ll0 else rep
+        else:
+            bit = rng.getrandbits(1)
+            code = 1 + ll0 + bit
+            off = rep[0] - 1 if code == 3 else rep[code]
+            extra = bit
+            nrep = [off, rep[0], rep[1]] if code != 1 else [off, rep[0], rep[2]]
+        if off > p or off < 1:
+            continue
+        rep = nrep
+        seqs.append((ll, ml, off, extra, llc, mlc, ofc))
+        lits_needed += ll; total += ll + ml; pos = p + ml
+    if not seqs:
+        return None
+    used_ll = sorted({s[4] for s in seqs}); used_ml = sorted({s[5] for s in seqs}); used_of = sorted({s[6] for s in seqs})
+    lown = lambda used, b: (b,) if (extreme and b in used and len(used) > 1) else ()
+    nll = make_norm(rng, used_ll, logs[0], low=lown(used_ll, big[0]) if big else (), maxsym_limit=35)
+    nof = make_norm(rng, used_of, logs[1], low=lown(used_of, big[2]) if big else (), maxsym_limit=28)
+    nml = make_norm(rng, used_ml, logs[2], low=lown(used_ml, big[1]) if big else (), maxsym_limit=52)
+    if nll is None or nof is None or nml is None:
+        return None
+    tll, tof, tml = fse_decode_table(nll, logs[0]), fse_decode_table(nof, logs[1]), fse_decode_table(nml, logs[2])
+    sll = fse_encode_states(tll, [s[4] for s in seqs]); sof = fse_encode_states(tof, [s[6] for s in seqs]); sml = fse_encode_states(tml, [s[5] for s in seqs])
+    tail = rng.choice([0, 0, 1, 5, 1000]) if blockmax - total > 1000 else 0
+    nlits = lits_needed + tail
+    if (rng.random() < 0.5 and not ring) or nlits == 0:
+        lits = (bytes(rng.getrandbits(8) for _ in range(min(nlits, 4096))) * (nlits // 4096 + 1))[:nlits]
+        lit_sec = lit_header(0, nlits) + lits
+    else:
+        b = rng.getrandbits(8); lits = bytes([b]) * nlits; lit_sec = lit_header(1, nlits) + bytes([b])
+    sec = nbseq_bytes(len(seqs), rng) + bytes([0xA8])
+    sec += dictgen.write_ncount(nll, logs[0]) + dictgen.write_ncount(nof, logs[1]) + dictgen.write_ncount(nml, logs[2])
+    fields = [(sll[0], logs[0]), (sof[0], logs[1]), (sml[0], logs[2])]
+    for k, (ll, ml, off, extra, llc, mlc, ofc) in enumerate(seqs):
+        ofbits = ofc if ofc >= 2 else (1 if ofc == 1 else 0)
+        if ofbits:
+            fields.append((extra, ofbits))
+        if ML_bits[mlc]:
+            fields.append((ml - ML_base[mlc], ML_bits[mlc]))
+        if LL_bits[llc]:
+            fields.append((ll - LL_base[llc], LL_bits[llc]))
+        if k + 1 < len(seqs):
+            for tab, st in ((tll, sll), (tml, sml), (tof, sof)):
+                s_, nb, base = tab[st[k]]
+                if nb:
+                    fields.append((st[k + 1] - base, nb))
+    sec += bitstream(fields)
+    body = lit_sec + sec
+    lp = 0
+    for (ll, ml, off, extra, llc, mlc, ofc) in seqs:
+        h.out += lits[lp:lp + ll]; lp += ll
+        if off >= ml:
+            st0 = len(h.out) - off; h.out += h.out[st0:st0 + ml]
+        else:
+            for _ in range(ml):
+                h.out.append(h.out[-off])
+    h.out += lits[lp:]
+    h.rep = rep
+    h.tables = None
+    return body
+
+
+def frame_fse(rng, extreme=False):
+    """frame = cheap prelude (RLE / raw blocks, more than 2 MiB of it for the extreme case) + compressed blocks with FSE-described tables"""
+    h = Hist()
+    blocks = []
+    if extreme:
+        wlog, mant = 22, rng.randrange(8)
+        for _ in range(rng.choice([17, 18, 20])):
+            b = rng.getrandbits(8)
+            blocks.append(((131072 << 3) | (1 << 1)).to_bytes(3, "little") + bytes([b])); h.out += bytes([b]) * 131072
+    else:
+        wlog, mant = rng.choice([10, 12, 14, 17, 18, 20]), rng.randrange(8)
+    window = (1 << wlog) + ((1 << wlog) >> 3) * mant
+    blockmax = min(window, 131072)
+    if not extreme:
+        for _ in range(rng.randint(0, 2)):
+            if rng.random() < 0.5:
+                n = rng.choice([1, 100, min(blockmax, 3000)]); data = bytes(rng.getrandbits(8) for _ in range(n))
+                blocks.append(((n << 3) | 0).to_bytes(3, "little") + data); h.out += data
+            else:
+                n = rng.choice([1, 1000, blockmax]); b = rng.getrandbits(8)
+                blocks.append(((n << 3) | (1 << 1)).to_bytes(3, "little") + bytes([b])); h.out += bytes([b]) * n
+    nb = rng.randint(1, 3)
+    made = 0
+    for bi in range(nb):
+        body = fse_block(rng, h, blockmax, extreme and bi == 0)
+        if body is None or len(body) >= blockmax:
+            continue
+        blocks.append(((len(body) << 3) | (2 << 1)).to_bytes(3, "little") + body); made += 1
+    blocks.append((1).to_bytes(3, "little"))          # empty raw last block
+    if not made:
+        return None
+    hdr = b"\x28\xb5\x2f\xfd" + bytes([0]) + bytes([((wlog - 10) << 3) | mant])
+    return hdr + b"".join(blocks), bytes(h.out)
+
+
+def frame_ring(rng):
+    """small window, content of several windows: incompressible raw blocks, a short block, then blocks holding more than 64 KiB of
+    literals with matches almost a whole window back - the streaming decoder's ring buffer wraps right before such a block"""
+    h = Hist()
+    blocks = []
+    wlog, mant = 17, 0
+    blockmax = 131072
+    def raw(n):
+        data = rng.randbytes(n) if hasattr(rng, "randbytes") else bytes(rng.getrandbits(8) for _ in range(n))
+        blocks.append(((n << 3) | 0).to_bytes(3, "little") + data); h.out += data
+    made = 0
+    for _ in range(rng.randint(1, 2)):
+        raw(blockmax)
+    for rounds in range(rng.randint(2, 4)):
+        if rng.random() < 0.7:
+            raw(rng.choice([1, 100, 3000, 20000]))
+        body = fse_block(rng, h, blockmax, "ring")
+        if body is not None and len(body) < blockmax:
+            blocks.append(((len(body) << 3) | (2 << 1)).to_bytes(3, "little") + body); made += 1
+        if rng.random() < 0.5:
+            raw(rng.choice([blockmax, 50000]))
+    blocks.append((1).to_bytes(3, "little"))
+    if not made:
+        return None
+    hdr = b"\x28\xb5\x2f\xfd" + bytes([0]) + bytes([((wlog - 10) << 3) | mant])
+    return hdr + b"".join(blocks), bytes(h.out)
